@@ -228,58 +228,8 @@ func main() {
 		// every byte length around the register's serialised width (widths.go)
 		runFromBytesWidths(c, p)
 	}
-	// ---- New with incompatible values / unknown ids ----
-	type nv struct {
-		kind string
-		v    interface{}
-	}
-	for _, p := range append(protos, nil) {
-		id := registers.RegisterID("BOGUS.REGISTER")
-		if p != nil {
-			id = p.ID()
-		}
-		for _, x := range []nv{{"nil", nil}, {"u8", uint8(0xAB)}, {"u16", uint16(0xABCD)}, {"u32", uint32(0xABCD1234)}, {"u64", uint64(0xABCD123455667788)},
-			{"int", int(77)}, {"string", "0x12"}, {"bytes0", []byte{}}, {"bytes2", []byte{1, 2}}, {"bytes32", make([]byte, 32)}, {"bytes33", make([]byte, 33)},
-			{"bool", true}, {"strslice", []string{"a"}}} {
-			var nr registers.Register
-			var err error
-			panicked, msg := gal.Recover(func() { nr, err = registers.New(id, x.v) })
-			cls := "OErr"
-			if panicked {
-				cls = "OPanic"
-			} else if err == nil {
-				cls = "(OOk " + regLit(nr) + ")"
-			}
-			var vlit string
-			switch t := x.v.(type) {
-			case nil:
-				vlit = "VNil"
-			case uint8:
-				vlit = fmt.Sprintf("(VUint 8 %d)", t)
-			case uint16:
-				vlit = fmt.Sprintf("(VUint 16 %d)", t)
-			case uint32:
-				vlit = fmt.Sprintf("(VUint 32 %d)", t)
-			case uint64:
-				vlit = fmt.Sprintf("(VUint 64 %d)", t)
-			case int:
-				vlit = fmt.Sprintf("(VUint 64 %d)", t)
-			case []byte:
-				vlit = "(VBytes " + gal.Bytes(t) + ")"
-			default:
-				vlit = "VOther"
-			}
-			d := map[string]interface{}{"id": string(id), "value_kind": x.kind}
-			idx := c.Add("new_any", fmt.Sprintf("CNew %s %s %s", gal.Str2(string(id)), vlit, cls), d, true)
-			if panicked {
-				c.OracleFail(idx, fmt.Sprintf("registers.New(%s, %s) panics: %s", id, x.kind, msg), "pkg/registers/registry.go:New", d)
-			} else if p == nil && err == nil {
-				c.OracleFail(idx, "registers.New accepts an unknown register ID", "pkg/registers/registry.go:New", d)
-			} else {
-				c.OracleOK()
-			}
-		}
-	}
+	// ---- New as a public constructor: every identifier x every kind of value (newvals.go) ----
+	runNewValues(c)
 	// ---- collections: JSON and YAML ----
 	nc := c.Scale(150, 2000)
 	for i := 0; i < nc; i++ {
@@ -376,10 +326,9 @@ func main() {
 		panic(terr)
 	}
 	runSequences(c, tmp)
-	runNewFromRegister(c)
 	// histories of calls on one variable, boundary families (ops.go)
 	runOps(c, tmp)
 	_ = os.RemoveAll(tmp)
 	runBoundaries(c)
-	c.Finish("per register type: raw-bytes round trip and New(id, own-width value) on zero/all-ones/single-bit/all-but-one-bit/small/byte-boundary/random raw values, ValueFromBytes on nil and EVERY byte length 0..40 (exhaustive sweep of the dispatch: every register type, its ID checked against the registry, and 7 unknown ids), 2*width, 2*width+1 and a longer one (random / all-ones / all-zero content) judged against the register's serialised width (value iff the length is the width, then the little-endian number), unknown ids, New on 13 value kinds incl. unknown id; random sub-collections (in random order) through legacy JSON and YAML; every textual form of a YAML value (0x/0X, lower/upper/mixed-case and zero-padded digits, decimal, base64:<std base64 of ValueBytes>, each plain and quoted) for every register type alone and mixed inside whole collections, with the collection the document denotes as the expected result; malformed and borderline scalars (wrong widths, broken base64, wrong-case prefixes, repeated and unknown keys); the entries json.Marshal / yaml.Marshal write, read back with plain decoders; 2-4 documents (package-written JSON/YAML, harness-written, malformed) unmarshalled one after another into ONE destination (nil, empty, filled, filled with spare capacity) directly, as a struct field and through helpers.FlagRegisters.Set; for every register type legacy-JSON and YAML documents (alone or among healthy entries, into nil/filled destinations) with ONE entry of another width: no bytes (JSON value '', null, no value field; YAML 'base64:', '0x', '', ~, no value), one byte short, shorter, one byte long, longer, and the exact width as control, the key also in hexadecimal; New handed a register; histories of 3-8 calls on ONE variable (nil / empty / filled / spare capacity): Unmarshal of JSON and YAML documents (directly, as a struct field, through FlagRegisters.Set), Sort, json.Marshal and yaml.Marshal (the variable must stay as it is and what was written must parse back, into a fresh variable, to the same registers: the round trip in every REACHED state), Find of present / absent / unknown IDs, FlagRegisters.Set with an empty path, an unreadable path and a file without a document; boundary families: raw 2^(w-1)-1, 2^(w-1), 2^w-1 of every integer register through YAML (int / uint64 resolution of yaml.v3), keys whose hexadecimal text is 2^64-1, 2^64, 2^64+1, the largest value of the width as a quoted hexadecimal string and three wider ones per register (ParseUint bit size), New on byte slices of length 1, 31, 32, 33, 64; non-trivial = non-zero raw / non-empty collection; distinct = distinct Gallina literal")
+	c.Finish("per register type: raw-bytes round trip and New(id, own-width value) on zero/all-ones/single-bit/all-but-one-bit/small/byte-boundary/random raw values, ValueFromBytes on nil and EVERY byte length 0..40 (exhaustive sweep of the dispatch: every register type, its ID checked against the registry, and 7 unknown ids), 2*width, 2*width+1 and a longer one (random / all-ones / all-zero content) judged against the register's serialised width (value iff the length is the width, then the little-endian number), unknown ids; registers.New as a constructor: each of the 26 identifiers and 4 unknown ones (arbitrary, empty, a registered one in lower case / with a trailing blank) x 64 values - a register value of EVERY register type (small or full-width raw), the own type in both size classes, pointers to register values, every Go integer type (unsigned of each width, named, signed, negative), byte slices and byte arrays of 32, 31, 33, 4, 2, 0 bytes and of the register's serialised width and one more, nil, string, bool, struct, map, other slices - judged from the property text: no panic, unknown id = error, an accepted result IS a register of the requested identifier (ID, Go type, found by Find), keeps a number that fits / the bytes handed over, own-width values must be accepted, values of another kind (integer <-> 32-byte register, wrong byte length, no number and no bytes) must be refused; random sub-collections (in random order) through legacy JSON and YAML; every textual form of a YAML value (0x/0X, lower/upper/mixed-case and zero-padded digits, decimal, base64:<std base64 of ValueBytes>, each plain and quoted) for every register type alone and mixed inside whole collections, with the collection the document denotes as the expected result; malformed and borderline scalars (wrong widths, broken base64, wrong-case prefixes, repeated and unknown keys); the entries json.Marshal / yaml.Marshal write, read back with plain decoders; 2-4 documents (package-written JSON/YAML, harness-written, malformed) unmarshalled one after another into ONE destination (nil, empty, filled, filled with spare capacity) directly, as a struct field and through helpers.FlagRegisters.Set; for every register type legacy-JSON and YAML documents (alone or among healthy entries, into nil/filled destinations) with ONE entry of another width: no bytes (JSON value '', null, no value field; YAML 'base64:', '0x', '', ~, no value), one byte short, shorter, one byte long, longer, and the exact width as control, the key also in hexadecimal; histories of 3-8 calls on ONE variable (nil / empty / filled / spare capacity): Unmarshal of JSON and YAML documents (directly, as a struct field, through FlagRegisters.Set), Sort, json.Marshal and yaml.Marshal (the variable must stay as it is and what was written must parse back, into a fresh variable, to the same registers: the round trip in every REACHED state), Find of present / absent / unknown IDs, FlagRegisters.Set with an empty path, an unreadable path and a file without a document; boundary families: raw 2^(w-1)-1, 2^(w-1), 2^w-1 of every integer register through YAML (int / uint64 resolution of yaml.v3), keys whose hexadecimal text is 2^64-1, 2^64, 2^64+1, the largest value of the width as a quoted hexadecimal string and three wider ones per register (ParseUint bit size), New on byte slices of length 1, 31, 32, 33, 64; non-trivial = non-zero raw / non-empty collection; distinct = distinct Gallina literal")
 }
